@@ -8,5 +8,6 @@ CONSTANTS
   TokRank <- GRNoRank
   MaxRoutes = 0
   Wide = FALSE
+  MethodPick = {}
 INVARIANTS Emit
 CHECK_DEADLOCK FALSE
